@@ -96,7 +96,7 @@ fn rel_node(rng: &mut Rng, id: &str, r: &str, r2: &str) -> (String, String, bool
     let loc2 = *rng.pick(LOCS);
     let dir = *rng.pick(&["h", "H", "v", "V"]);
     // returns (kind, xml, uses_second_ref)
-    match rng.below(46) {
+    match rng.below(51) {
         0 => ("rel-dir-wh".into(), format!("<rect id=\"{id}\" xy=\"#{r}|{dir} {g}\" wh=\"{w} {h}\"/>"), false),
         1 => (
             "rel-dir-longsize".into(),
@@ -309,6 +309,33 @@ fn rel_node(rng: &mut Rng, id: &str, r: &str, r2: &str) -> (String, String, bool
             "rel-prev-after-waiting-group".into(),
             format!("<g id=\"{id}p\"><rect xy=\"#{r}@{loc}\" wh=\"{w} {h}\"/></g><rect id=\"{id}\" xy=\"^|{dir} {g}\" wh=\"{h}\"/>"),
             false,
+        ),
+        45 => (
+            // '^' after a control element whose own attribute has to wait
+            "rel-prev-after-waiting-if".into(),
+            format!("<if test=\"{{{{#{r}~w + 1}}}}\"><rect id=\"{id}p\" xy=\"{g} {w}\" wh=\"{h}\"/></if><rect id=\"{id}\" xy=\"^|{dir} {g}\" wh=\"{w}\"/>"),
+            false,
+        ),
+        46 => (
+            "rel-prev-after-waiting-loop".into(),
+            format!("<loop count=\"{{{{1 + 0 * #{r}~h}}}}\"><rect id=\"{id}p\" xy=\"{w} {g}\" wh=\"{h}\"/></loop><rect id=\"{id}\" xy=\"^|{dir} {g}\" wh=\"{w}\"/>"),
+            false,
+        ),
+        47 => (
+            "rel-prev-after-waiting-for".into(),
+            format!("<for data=\"{{{{#{r}~w}}}}, {g}\" var=\"z{id}\" idx-var=\"j{id}\"><rect id=\"{id}p$j{id}\" xy=\"{w} {{{{$j{id} * 9}}}}\" wh=\"{h}\"/></for><circle id=\"{id}\" cxy=\"^@{loc}\" r=\"2\"/>"),
+            false,
+        ),
+        48 => (
+            // a reuse anchored by its far edge / centre, which needs the target's size
+            "rel-reuse-x2".into(),
+            format!("<reuse id=\"{id}\" href=\"#tpl\" x2=\"#{r}~x\" y=\"{g}\"/>"),
+            false,
+        ),
+        49 => (
+            "rel-reuse-cx".into(),
+            format!("<reuse id=\"{id}\" href=\"#tpl\" cx=\"#{r}~cx\" cy=\"{{{{#{r2}~y2 + {g}}}}}\"/>"),
+            true,
         ),
         _ => (
             "rel-reuse".into(),
@@ -593,6 +620,39 @@ impl Engine for C10 {
                 id: format!("n{}", base + 2),
                 kind: "rel-dir-wh".into(),
                 xml: format!("<rect id=\"n{}\" xy=\"#n{}|{dir} 2\" wh=\"3 4\"/>", base + 2, base + 1),
+                deps: vec![base + 1],
+            });
+        }
+        // another motif, one scenario in six: a group (outside <specs>) whose content waits for
+        // another node, a <reuse> of that group anchored by its centre or far corner (which
+        // needs the group's size), and an element placed against the instance
+        if w.chance(1, 6) {
+            let base = nodes.len();
+            let anchor = nodes[w.usize(base)].id.clone();
+            let ai = nodes.iter().position(|x| x.id == anchor).unwrap();
+            let loc = *w.pick(LOCS);
+            let (gw, gh) = (n(&mut w, 3, 14), n(&mut w, 3, 14));
+            nodes.push(NodeSpec {
+                id: format!("n{base}"),
+                kind: "rel-group-child".into(),
+                xml: format!("<g id=\"n{base}\"><rect xy=\"#{anchor}@{loc}\" wh=\"{gw} {gh}\"/><circle cxy=\"^@br\" r=\"2\"/></g>"),
+                deps: vec![ai],
+            });
+            let how = match w.below(3) {
+                0 => format!("cx=\"{}\" cy=\"{}\"", n(&mut w, 20, 60), n(&mut w, 20, 60)),
+                1 => format!("x2=\"{}\" y2=\"{}\"", n(&mut w, 20, 60), n(&mut w, 20, 60)),
+                _ => format!("cxy=\"{} {}\"", n(&mut w, 20, 60), n(&mut w, 20, 60)),
+            };
+            nodes.push(NodeSpec {
+                id: format!("n{}", base + 1),
+                kind: "rel-reuse-of-waiting-group".into(),
+                xml: format!("<reuse id=\"n{}\" href=\"#n{base}\" {how}/>", base + 1),
+                deps: vec![base],
+            });
+            nodes.push(NodeSpec {
+                id: format!("n{}", base + 2),
+                kind: "rel-dir-wh".into(),
+                xml: format!("<rect id=\"n{}\" xy=\"#n{}|h 3\" wh=\"2 5\"/>", base + 2, base + 1),
                 deps: vec![base + 1],
             });
         }
